@@ -290,6 +290,56 @@ inline GraphInfo buildGraph(nifly::NifFile& nif, Tape& t, size_t vi, bool allowP
 			gi.add("root-not-first");
 		}
 	}
+	// ---- a deep loose chain stored children-first (what an abandoned Havok tree looks like): every block
+	// references the one stored just before it and nothing references the last one. Pruning it takes one
+	// pass per layer unless the pruner restarts. Chosen from the choices already made (no further tape
+	// reads: the callers' own decisions that follow on the tape keep their meaning).
+	if (nLoose == 3) {
+		if (ver.stream >= 34 && ver.stream <= 100) {
+			// box <- [list <- mopp <-] rigid body <- collision object without an owner: 3 or 5 layers, and the
+			// sorter keeps Havok blocks children-first, so the order survives a save
+			const bool deep = hdr.GetNumBlocks() % 2 == 0;
+			uint32_t shapeId = hdr.AddBlock(std::make_unique<bhkBoxShape>());
+			if (deep) {
+				auto list = std::make_unique<bhkListShape>();
+				list->subShapeRefs.AddBlockRef(shapeId);
+				uint32_t listId = hdr.AddBlock(std::move(list));
+				auto mopp = std::make_unique<bhkMoppBvTreeShape>();
+				mopp->shapeRef.index = listId;
+				shapeId = hdr.AddBlock(std::move(mopp));
+			}
+			auto body = std::make_unique<bhkRigidBody>();
+			body->shapeRef.index = shapeId;
+			uint32_t bodyId = hdr.AddBlock(std::move(body));
+			auto col = std::make_unique<bhkCollisionObject>();
+			col->bodyRef.index = bodyId;
+			hdr.AddBlock(std::move(col));
+			gi.looseBlocks += deep ? 5 : 3;
+			gi.add(deep ? "loose-havok-chain-children-first(5)" : "loose-havok-chain-children-first(3)");
+		}
+		else {
+			uint32_t depth = 3 + hdr.GetNumBlocks() % 3;
+			uint32_t prev = NIF_NPOS;
+			for (uint32_t d = 0; d < depth; d++) {
+				if (d == 0) {
+					auto ed = std::make_unique<NiStringExtraData>();
+					ed->name.get() = "chain-leaf";
+					prev = hdr.AddBlock(std::move(ed));
+				}
+				else {
+					auto n = std::make_unique<NiNode>();
+					n->name.get() = "LooseChain" + std::to_string(d);
+					if (d == 1)
+						n->extraDataRefs.AddBlockRef(prev);
+					else
+						n->childRefs.AddBlockRef(prev);
+					prev = hdr.AddBlock(std::move(n));
+				}
+			}
+			gi.looseBlocks += depth;
+			gi.add("deep-loose-chain-children-first(" + std::to_string(depth) + ")");
+		}
+	}
 	nif.LinkGeomData();
 	auto newRoot = nif.GetRootNode();
 	if (newRoot)
